@@ -686,7 +686,7 @@ func (c *PolyCtx) of(v ssa.Value) Poly {
 		return c.opaque("unop"+x.Op.String(), v, c.Of(x.X))
 	case *ssa.Convert:
 		if isIntLike(x.Type()) && isIntLike(x.X.Type()) {
-			if intSize(x.Type()) < intSize(x.X.Type()) {
+			if intSize(x.Type()) < intSize(x.X.Type()) && !polyIgnoreNarrowing {
 				return c.opaque(fmt.Sprintf("narrow%d", intSize(x.Type())*8), v, c.Of(x.X))
 			}
 			return c.Of(x.X)
@@ -1230,3 +1230,8 @@ func resolveCell(v ssa.Value) ssa.Value {
 	}
 	return v
 }
+
+// polyIgnoreNarrowing: read a narrowing integer conversion as the value itself.  Set only while
+// looking for positive evidence of what a comparison measures against (the code under analysis
+// itself assumes the values fit), never for discharging an obligation.
+var polyIgnoreNarrowing bool
